@@ -11,7 +11,6 @@
 package lease_set2
 
 //@ import "github.com/go-i2p/common/destination"
-//@ import common "github.com/go-i2p/common/data"
 //@ import "github.com/go-i2p/common/key_certificate"
 
 //@ loop parseEncryptionKeys 0: unroll 16
@@ -41,11 +40,3 @@ package lease_set2
 //@   }
 //@ }
 //@ import "time"
-
-//@ lemma T_dbgErrs(data []byte) {
-//@   _, _, errs := common.ReadMapping(data)
-//@   if len(errs) >= 3 {
-//@     assert(errs[2] != nil)
-//@     assert(errs[0] != nil)
-//@   }
-//@ }
